@@ -80,4 +80,11 @@ theorem C07_tgen_manifest_order :
     ord_flush_manifest_wal = "before" ∧ ord_compact_manifest_replace = "before" := by decide
 theorem C03_tgen_commit_order :
     ord_commit_lock_ts = "before" ∧ ord_commit_ts_send = "before" ∧ ord_commit_wait_done = "before" := by decide
+/-! Order of the validation checks and effects of `Txn.modify` (the model's `Db.modify` performs them in
+    this order: which error a rejected write gets is part of C28), of `Txn.Get` (pending write,
+    read tracking, snapshot: C04) and of `Txn.Commit`. -/
+theorem C28_tgen_modify_order : ord_modify_checks = "ascending" := by decide
+theorem C04_tgen_get_order : ord_get_steps = "ascending" := by decide
+theorem C02_tgen_get_tracks_reads : ord_get_steps = "ascending" := by decide
+theorem C03_tgen_commit_steps : ord_commit_steps = "ascending" := by decide
 end Badger
